@@ -68,6 +68,9 @@ type script struct {
 	CloseCode int
 	CloseKind int  // 0 short reason, 1 long reason, 2 invalid code with a long reason, 3 invalid UTF-8 in a long reason, 4 no reason
 	WSS       bool // the client first probes a wss:// dial through the default TLS client (the peer never answers)
+	BadReq    int  // > 0: the client sends a request the upgrader refuses (1 no Upgrade header, 2 version 12, 3 POST); the upgrader adds a header of this session to its answer
+	SrvDebug  bool // the server upgrades through the process-wide wsutil.DebugUpgrader value
+	Exact     bool // the client's only offer is exactly the server's configured permessage-deflate parameters
 	Vanish    int  // > 0: the client sends only the first Vanish lines of its request and goes away (the upgrader must fail; nothing else happens)
 	LongHdr   bool // both peers send a header line longer than the default I/O buffer (and shorter than two of them)
 	Debug     bool // the client dials through the process-wide wsutil.DebugDialer value
@@ -123,6 +126,11 @@ func makeScript(seed uint64) *script {
 	if sc.SrvKind != 2 && p.intn(8) == 0 {
 		sc.Vanish = 1 + p.intn(4)
 	}
+	sc.Exact = sc.Flate && sc.SrvKind != 3 && p.intn(3) == 0
+	if sc.Vanish == 0 && p.intn(8) == 0 {
+		sc.BadReq = 1 + p.intn(3)
+	}
+	sc.SrvDebug = sc.SrvKind == 0 && p.intn(2) == 0
 	if p.intn(5) == 0 {
 		sc.Steps = append(sc.Steps, exchange{Kind: exBadText, FromCli: p.intn(2) == 0, Text: true, Size: 3 + p.intn(40), Seed: p.next()})
 	}
@@ -346,6 +354,18 @@ func NewSharedDebugDialer(conns map[string]net.Conn) *wsutil.DebugDialer {
 	}
 }
 
+// SharedDebugUpgrader is the debugging upgrader all plain server sessions of
+// a run may share (rebuilt by the driver before every run; its callbacks keep
+// nothing).
+var SharedDebugUpgrader *wsutil.DebugUpgrader
+
+func NewSharedDebugUpgrader() *wsutil.DebugUpgrader {
+	return &wsutil.DebugUpgrader{
+		OnRequest:  func(b []byte) { _ = sum(b) },
+		OnResponse: func(b []byte) { _ = sum(b) },
+	}
+}
+
 // SharedFlateDialer is rebuilt by the driver before every run.
 var SharedFlateDialer *ws.Dialer
 
@@ -363,6 +383,23 @@ func runClient(sc *script, conn net.Conn, tr *transcript) {
 	if sc.WSS {
 		wssProbe(sc, tr)
 	}
+	if sc.BadReq > 0 {
+		req := map[int]string{
+			1: "GET /session/bad HTTP/1.1\r\nHost: example.com\r\nConnection: Upgrade\r\nSec-WebSocket-Version: 13\r\nSec-WebSocket-Key: dGhlIHNhbXBsZSBub25jZQ==\r\n\r\n",
+			2: "GET /session/bad HTTP/1.1\r\nHost: example.com\r\nUpgrade: websocket\r\nConnection: Upgrade\r\nSec-WebSocket-Version: 12\r\nSec-WebSocket-Key: dGhlIHNhbXBsZSBub25jZQ==\r\n\r\n",
+			3: "POST /session/bad HTTP/1.1\r\nHost: example.com\r\nUpgrade: websocket\r\nConnection: Upgrade\r\nSec-WebSocket-Version: 13\r\nSec-WebSocket-Key: dGhlIHNhbXBsZSBub25jZQ==\r\n\r\n",
+		}[sc.BadReq]
+		conn.Write([]byte(req))
+		resp, err := http.ReadResponse(bufio.NewReader(conn), nil)
+		if err != nil {
+			tr.add("rejection: no response: %v", err)
+			return
+		}
+		body, _ := io.ReadAll(resp.Body)
+		want := fmt.Sprint(sc.Seed)
+		tr.add("rejection: status=%d x-session=%q (own=%v) body=%q", resp.StatusCode, resp.Header.Get("X-Session"), resp.Header.Get("X-Session") == want, body)
+		return
+	}
 	if sc.Vanish > 0 {
 		// A client that goes away in the middle of its request.
 		lines := []string{"GET /session/gone HTTP/1.1\r\n", "Host: example.com\r\n", "Upgrade: websocket\r\n", "Connection: Upgrade\r\n", "Sec-WebSocket-Version: 13\r\n"}
@@ -379,6 +416,9 @@ func runClient(sc *script, conn net.Conn, tr *transcript) {
 		// Extensions slice) shared by every connection it opens.
 		d = *SharedFlateDialer
 		d.Protocols = sc.Protocols
+		if sc.Exact {
+			d.Extensions = []httphead.Option{wsflate.DefaultParameters.Option()}
+		}
 	}
 	u, _ := url.Parse(fmt.Sprintf("ws://example.com/session/%d", sc.Seed%1000))
 	var (
@@ -453,9 +493,21 @@ func runServer(sc *script, conn net.Conn, tr *transcript) {
 		err error
 	)
 	accept := func(p string) bool { return p == "superchat" || p == "chat" }
+	if sc.BadReq > 0 {
+		u := ws.Upgrader{Header: ws.HandshakeHeaderString(fmt.Sprintf("X-Session: %d\r\n", sc.Seed))}
+		_, err = u.Upgrade(conn)
+		tr.add("handshake refused: %v", err)
+		return
+	}
+	switch {
+	case sc.SrvKind == 0 && sc.SrvDebug:
+		hs, err = SharedDebugUpgrader.Upgrade(conn)
+	}
 	switch sc.SrvKind {
 	case 0:
-		hs, err = ws.Upgrade(conn)
+		if !sc.SrvDebug {
+			hs, err = ws.Upgrade(conn)
+		}
 	case 1:
 		ext := wsflate.Extension{Parameters: wsflate.DefaultParameters}
 		u := ws.Upgrader{Protocol: func(p []byte) bool { return accept(string(p)) }}
